@@ -193,7 +193,10 @@ def propagate_constants(expression, root=True):
         and sqlglot.optimizer.normalize.normalized(expression, dnf=True)
     ):
         constant_mapping = {}
-        for expr in walk_in_scope(expression, prune=lambda node: isinstance(node, exp.If)):
+        # An equality under a NOT does not hold in the conjunction, so it can't bind a constant
+        for expr in walk_in_scope(
+            expression, prune=lambda node: isinstance(node, (exp.If, exp.Not))
+        ):
             if isinstance(expr, exp.EQ):
                 l, r = expr.left, expr.right
 
